@@ -209,7 +209,13 @@ def run(ctx):
     defs = local_defs(js).get(v.id, []) if isinstance(v, ast.Name) else [v]
     ok = bool(defs) and all(isinstance(x, (ast.Dict, ast.DictComp)) or (isinstance(x, ast.Call) and norm(x.func) in ("dict", "OrderedDict")) for x in defs)
     ctx.ob("C06.meta", js, "properties : dict", ok, "" if ok else '"properties" must be an object', line=v.lineno)
-    # ---------------------------------------------------------- pattern
+    _pattern(ctx, index, p2j, j2p)
+
+
+def _pattern(ctx, index, p2j=None, j2p=None):
+    """Literal <-> pattern siblings (also run by C08: a transform on emit that parse does not undo grows each round)"""
+    p2j = p2j or index.func("cdd.json_schema.utils.emit_utils.param2json_schema_property")
+    j2p = j2p or index.func("cdd.json_schema.utils.parse_utils.json_schema_property_to_param")
     seps_emit = []
     for n in iter_own(p2j.node):
         if isinstance(n, ast.Dict):
